@@ -719,7 +719,9 @@ def ruleDateInterval(ts: datetime, d: Time, i: Interval) -> Optional[Interval]:
 
     if t_from and t_to and t_from.dt >= t_to.dt:
         # "9-5" edge case, this is a common implicit am to pm interval
-        if (type(t_from.hour) == int and type(t_to.hour) == int) and (t_from.hour <= 12 and t_to.hour <= 12) and (t_from.hour >= t_to.hour):
+        if (type(t_from.hour) == int and type(t_to.hour) == int) and (t_from.hour <= 12 and t_to.hour <= 12) and (t_from.hour >= t_to.hour) and (
+            t_to.dt + relativedelta(hours=12) > t_from.dt
+        ):
             t_to_dt = t_to.dt + relativedelta(hours=12)
             t_to = Time(
                 year=t_to_dt.year,
